@@ -1,3 +1,10 @@
 # source me:  . selftest/seed_tools.sh
-save_seed(){ id=$1; wt=$2; mkdir -p /verif/seeded/$id; (cd $wt && git diff -- main generator derive > /verif/seeded/$id/patch.diff; for f in $(git status --short | grep '^??' | awk '{print $2}' | grep -v '^target'); do [ -f "$f" ] && cp $f /verif/seeded/$id/demo_$(basename $f); done); wc -l /verif/seeded/$id/patch.diff; ls /verif/seeded/$id; }
-verify_seed(){ wt=$1; demo=${2:-derive/tests/seeded_demo.rs}; pkg=${3:-pest_typed_derive}; t=$(basename $demo .rs); cd $wt; echo "-- with change:"; CARGO_NET_OFFLINE=true cargo test -p $pkg --test $t --offline 2>&1 | grep -E "test result"; git diff -- main generator derive > /tmp/_p.diff; git apply -R /tmp/_p.diff; echo "-- without:"; CARGO_NET_OFFLINE=true cargo test -p $pkg --test $t --offline 2>&1 | grep -E "test result"; git apply /tmp/_p.diff; mv $demo /tmp/_sd.rs; echo "-- suite with change (non-ok lines):"; CARGO_NET_OFFLINE=true cargo test --workspace --no-fail-fast --offline 2>&1 | grep -E "^test result|error" | grep -v "ok\." ; mv /tmp/_sd.rs $demo; cd /verif; }
+save_seed(){ _sid=$1; _wt=$2; mkdir -p /verif/seeded/$_sid; (cd $_wt && git diff -- main generator derive > /verif/seeded/$_sid/patch.diff; for f in $(git status --short | grep '^??' | awk '{print $2}' | grep -v '^target'); do [ -f "$f" ] && cp $f /verif/seeded/$_sid/demo_$(basename $f); done); wc -l /verif/seeded/$_sid/patch.diff; ls /verif/seeded/$_sid; }
+# verify_seed <seed id> <demo path inside repo> <package> [extra cargo flags]: fresh worktree, demo with/without patch, suite with patch
+verify_seed(){ _sid=$1; _demo=${2:-derive/tests/seeded_demo.rs}; _pkg=${3:-pest_typed_derive}; _fl=$4; _t=$(basename $_demo .rs); _wt=/tmp/wtv_$_sid;
+  git -C /repo worktree add -q --detach $_wt HEAD || return 1;
+  cp /verif/seeded/$_sid/demo_$(basename $_demo) $_wt/$_demo;
+  ( cd $_wt; echo "-- without change:"; CARGO_NET_OFFLINE=true cargo test -p $_pkg --test $_t --offline $_fl 2>&1 | grep -E "test result";
+    git apply /verif/seeded/$_sid/patch.diff; echo "-- with change:"; CARGO_NET_OFFLINE=true cargo test -p $_pkg --test $_t --offline $_fl 2>&1 | grep -E "test result";
+    rm $_demo; echo "-- existing suite with change (non-ok result lines):"; CARGO_NET_OFFLINE=true cargo test --workspace --no-fail-fast --offline 2>&1 | grep -E "^test result|^error" | grep -v "ok\." );
+  git -C /repo worktree remove --force $_wt; }
